@@ -1077,6 +1077,41 @@ fn vf_driver_c17() {
     }
     eprintln!("[C17] sprinkled documents: {} cases, {:.2} s", ctx.report.cases - before, t1.elapsed().as_secs_f64());
 
+    // ---- part 2b: LARGE documents with dense multi-unit content. Detection and decoding must not depend on where in the
+    //      file a multi-byte / surrogate-pair character lies: a long comment made of non-BMP characters (every UTF-16 unit
+    //      position is inside a surrogate pair, both parities through the optional BOM and an extra ASCII character) and of
+    //      2-, 3- and 4-byte characters in rotation (every byte offset mod 2^k is crossed by a multi-byte character) ----
+    let t1b = Instant::now();
+    let before = ctx.report.cases;
+    {
+        let (_, text) = &base[2];
+        let sizes: &[usize] = if thorough { &[1000, 4090, 8200, 16500, 33000, 70000] } else { &[4090, 8200, 33000] };
+        for (si, n) in sizes.iter().enumerate() {
+            let mut pairs = String::with_capacity(n * 4 + 16);
+            for _ in 0..*n {
+                pairs.push('\u{1F600}');
+            }
+            let mut mixed = String::with_capacity(n * 4 + 16);
+            let rot_chars = ['\u{e9}', '\u{20ac}', '\u{1D11E}', 'x', '\u{4e2d}', '\u{10FFFF}'];
+            for i in 0..*n {
+                mixed.push(rot_chars[i % rot_chars.len()]);
+            }
+            for (kind, body) in [("pairs", &pairs), ("mixed", &mixed)] {
+                for shift in 0..2 {
+                    // `shift` moves everything behind it by one unit / byte
+                    let filler = if shift == 1 { "y" } else { "" };
+                    let big = text.replacen("ASAP2_VERSION", &format!("/*{}{}*/ ASAP2_VERSION", filler, body), 1);
+                    ctx.all_encodings(&format!("large:{}:{}:{}:shift{}", kind, n, si, shift), &big, rot, true);
+                    rot += 1;
+                }
+            }
+            if ctx.aborted {
+                break;
+            }
+        }
+    }
+    eprintln!("[C17] large documents: {} cases, {:.2} s", ctx.report.cases - before, t1b.elapsed().as_secs_f64());
+
     // generator self-check: every residue class reached for every encoding (UTF-16: 0 and 2, UTF-32: 0)
     for (ei, enc) in ENCODINGS.iter().enumerate() {
         let need: &[usize] = match enc {
